@@ -20,6 +20,7 @@ func init() {
 	zzsv.Register("ZZ_C04_RunsAfterFailure", ZZ_C04_RunsAfterFailure)
 	zzsv.Register("ZZ_C04_MapShapes", ZZ_C04_MapShapes)
 	zzsv.Register("ZZ_C04_Embedded", ZZ_C04_Embedded)
+	zzsv.Register("ZZ_C04_AliasedSlices", ZZ_C04_AliasedSlices)
 }
 
 type zzRecA struct {
@@ -591,4 +592,61 @@ func ZZ_C04_Embedded(sv *zzsv.T) {
 	default:
 		sv.Assert("C04.embedded.own_field", zzSame(sv, out, zInt(cnt)))
 	}
+}
+
+type zzAliased struct {
+	All  []int64
+	Top  []int64
+	Tail []int64
+	Same []int64
+	Strs []string
+	Two  []string
+}
+
+// ZZ_C04_AliasedSlices: slice fields that share one backing array - a
+// prefix, a suffix, the same slice twice - in a struct or a map: each field
+// is an array of its own length and elements, in order.
+func ZZ_C04_AliasedSlices(sv *zzsv.T) {
+	all := []int64{sv.Int64("e0"), sv.Int64("e1"), sv.Int64("e2"), sv.Int64("e3")}
+	strs := []string{"a", "b", "c"}
+	var obj interface{}
+	if sv.Choice("as_map", 2) == 1 {
+		obj = map[string]interface{}{"All": all, "Top": all[:2], "Tail": all[1:], "Same": all, "Strs": strs, "Two": strs[:2]}
+	} else {
+		obj = &zzAliased{All: all, Top: all[:2], Tail: all[1:], Same: all, Strs: strs, Two: strs[:2]}
+	}
+	scripts := []string{
+		"return [len(All), len(Top), len(Tail), len(Same), len(Strs), len(Two)];",
+		"return [len(Top), len(All)];",
+		"return Top;", "return Tail;", "x = All; return Top;", "x = Top; return All;", "return Two;",
+	}
+	k := sv.Choice("script", len(scripts))
+	e := New(scripts[k])
+	sv.Note("script", e.Script)
+	sv.Assume(e.Prepare() == nil)
+	out, err := e.Execute(obj)
+	zzDescribe(sv, "result", out, err)
+	ints := func(xs ...int64) zv {
+		v := zv{t: tArray}
+		for _, x := range xs {
+			v.arr = append(v.arr, zInt(x))
+		}
+		return v
+	}
+	var want zv
+	switch k {
+	case 0:
+		want = ints(4, 2, 3, 4, 3, 2)
+	case 1:
+		want = ints(2, 4)
+	case 2, 4:
+		want = ints(all[0], all[1])
+	case 3:
+		want = ints(all[1], all[2], all[3])
+	case 5:
+		want = ints(all...)
+	default:
+		want = zArr(zStr("a"), zStr("b"))
+	}
+	sv.Assert("C04.aliased", err == nil && zzSame(sv, out, want))
 }
